@@ -75,6 +75,7 @@ xml_prefixes = (
     (codecs.BOM_UTF32_BE, 'utf-32-be'),
     (codecs.BOM_UTF32_LE, 'utf-32-le'),
     (codecs.BOM_UTF32, 'utf-32'),
+    (b'\x84\x31\x95\x33', 'gb18030'),
 )
 
 
@@ -166,6 +167,9 @@ def read_bytes(
     # Marks of other encodings (GB18030, UTF-7) are not part of the text.
     if document.startswith('\ufeff'):
         document = document[1:]
+        # The mark has hidden the declaration from the test above.
+        if is_xml_declaration(document):
+            content_type = "text/xml"
     return document, encoding, content_type
 
 
